@@ -197,6 +197,12 @@ Theorem C07_conc_step : forall lo dead m x tid x' e,
 Proof. exact xstep_inv. Qed.
 Print Assumptions C07_conc_step.
 
+(* hence: every configuration reachable by any schedule of the live threads, with unblock anywhere in its scan, satisfies XInv
+   (up to a store of a padding header, for which C07_conc_step gives the configuration with the same memory) *)
+Theorem C07_conc_reachable : forall lo dead m x0 x, XInv lo dead x0 -> xreach dead m x0 x -> XInv lo dead x.
+Proof. exact xreach_inv. Qed.
+Print Assumptions C07_conc_reachable.
+
 (* what one access of unblock does: it goes on with a justified pc on the same ring, or returns false on the same
    ring, or it is the store *)
 Theorem C07_conc_unblock_access : forall lo dead R prods u R' nxt e,
